@@ -4,5 +4,396 @@ From LJT Require Import gen.GenLayouts model.Color.
 Import ListNotations.
 Local Open Scope Z_scope.
 
+(* ------------------------------------------------------------------ generated tables *)
 Lemma layouts_ok_true : layouts_ok = true /\ fix_ok = true.
 Proof. split; vm_compute; reflexivity. Qed.
+
+Lemma wf_layoutb_WF L : wf_layoutb L = true -> WF L.
+Proof.
+  unfold wf_layoutb, WF. intro H.
+  repeat (apply andb_prop in H; destruct H as [H ?]).
+  repeat match goal with
+         | H : negb _ = true |- _ => apply negb_true_iff in H
+         | H : (_ || _) = true |- _ => apply orb_prop in H
+         | H : (_ && _) = true |- _ => apply andb_prop in H; destruct H
+         end.
+  repeat match goal with
+         | H : (_ =? _) = true |- _ => apply Z.eqb_eq in H
+         | H : (_ =? _) = false |- _ => apply Z.eqb_neq in H
+         | H : (_ <=? _) = true |- _ => apply Z.leb_le in H
+         | H : (_ <? _) = true |- _ => apply Z.ltb_lt in H
+         end.
+  repeat match goal with
+         | H : _ \/ _ |- _ => destruct H
+         | H : (_ && _) = true |- _ => apply andb_prop in H; destruct H
+         | H : negb _ = true |- _ => apply negb_true_iff in H
+         | H : (_ =? _) = true |- _ => apply Z.eqb_eq in H
+         | H : (_ =? _) = false |- _ => apply Z.eqb_neq in H
+         | H : (_ <=? _) = true |- _ => apply Z.leb_le in H
+         | H : (_ <? _) = true |- _ => apply Z.ltb_lt in H
+         end; lia.
+Qed.
+
+(* ------------------------------------------------------------------ memory *)
+Lemma rd_app_r pre l i : 0 <= i -> rd (pre ++ l) (Z.of_nat (length pre) + i) = rd l i.
+Proof.
+  intro Hi. unfold rd.
+  replace (Z.to_nat (Z.of_nat (length pre) + i)) with (length pre + Z.to_nat i)%nat by lia.
+  apply app_nth2_plus.
+Qed.
+
+Lemma rd_app_l l post i : 0 <= i < Z.of_nat (length l) -> rd (l ++ post) i = rd l i.
+Proof. intro Hi. unfold rd. apply app_nth1. lia. Qed.
+
+Lemma rd_zseq_map (f : Z -> Z) n k : 0 <= k < n -> rd (map f (zseq n)) k = f k.
+Proof.
+  intro Hk. unfold rd, zseq. rewrite map_map.
+  rewrite nth_indep with (d' := f (Z.of_nat 0)) by (rewrite map_length, seq_length; lia).
+  rewrite (map_nth (fun x => f (Z.of_nat x))).
+  rewrite seq_nth by lia. f_equal. lia.
+Qed.
+
+Lemma nth_upd_nat_same l : forall i v d, (i < length l)%nat -> nth i (upd_nat l i v) d = v.
+Proof. induction l as [|x t IH]; intros [|i] v d H; simpl in *; try lia; auto. apply IH. lia. Qed.
+
+Lemma nth_upd_nat_other l : forall i k v d, i <> k -> nth k (upd_nat l i v) d = nth k l d.
+Proof. induction l as [|x t IH]; intros [|i] [|k] v d H; simpl; auto; try congruence. Qed.
+
+Lemma length_upd_nat l : forall i v, length (upd_nat l i v) = length l.
+Proof. induction l as [|x t IH]; intros [|i] v; simpl; auto. Qed.
+
+Lemma length_upd buf i v : length (upd buf i v) = length buf.
+Proof. unfold upd. destruct (i <? 0); auto using length_upd_nat. Qed.
+
+Lemma rd_upd_same buf i v : 0 <= i < Z.of_nat (length buf) -> rd (upd buf i v) i = v.
+Proof.
+  intro H. unfold rd, upd. destruct (i <? 0) eqn:E; [lia|]. apply nth_upd_nat_same. lia.
+Qed.
+
+Lemma rd_upd_other buf i v j : 0 <= j -> i <> j -> rd (upd buf i v) j = rd buf j.
+Proof.
+  intros Hj H. unfold rd, upd. destruct (i <? 0) eqn:E; auto. apply nth_upd_nat_other. lia.
+Qed.
+
+(* ------------------------------------------------------------------ A. the compressor kernels factor through unpack *)
+Lemma rgb_ycc_cols_unpack p L buf : forall n ip,
+  rgb_ycc_cols p L buf ip n = map (ycc_of_rgb p) (unpack_cols L buf ip n).
+Proof. induction n; intro ip; simpl; [reflexivity | now rewrite IHn]. Qed.
+Lemma rgb_gray_cols_unpack p L buf : forall n ip,
+  rgb_gray_cols p L buf ip n = map (gray_of_rgb p) (unpack_cols L buf ip n).
+Proof. induction n; intro ip; simpl; [reflexivity | now rewrite IHn]. Qed.
+Lemma rgb_rgb_cols_unpack L buf : forall n ip, rgb_rgb_cols L buf ip n = unpack_cols L buf ip n.
+Proof. induction n; intro ip; simpl; [reflexivity | now rewrite IHn]. Qed.
+
+Lemma rgb_ycc_convert_unpack p L buf ptrs w :
+  rgb_ycc_convert p L buf ptrs w = map (map (ycc_of_rgb p)) (unpack L buf ptrs w).
+Proof. unfold rgb_ycc_convert, unpack. rewrite map_map. apply map_ext. intro. apply rgb_ycc_cols_unpack. Qed.
+Lemma rgb_gray_convert_unpack p L buf ptrs w :
+  rgb_gray_convert p L buf ptrs w = map (map (gray_of_rgb p)) (unpack L buf ptrs w).
+Proof. unfold rgb_gray_convert, unpack. rewrite map_map. apply map_ext. intro. apply rgb_gray_cols_unpack. Qed.
+Lemma rgb_rgb_convert_unpack L buf ptrs w : rgb_rgb_convert L buf ptrs w = unpack L buf ptrs w.
+Proof. unfold rgb_rgb_convert, unpack. apply map_ext. intro. apply rgb_rgb_cols_unpack. Qed.
+
+(* ------------------------------------------------------------------ B. pack / unpack *)
+Lemma pack_pixel_length L q : 0 <= psz L -> length (pack_pixel L q) = Z.to_nat (psz L).
+Proof. intros. destruct q as [[[r g] b] x]. unfold pack_pixel, zseq. now rewrite !map_length, seq_length. Qed.
+
+Lemma pack_pixel_unpack L q : WF L -> forall post,
+  unpack_pixel L (pack_pixel L q ++ post) 0 = rgb_of_quad q.
+Proof.
+  intros W post. destruct q as [[[r g] b] x]. unfold unpack_pixel, rgb_of_quad.
+  destruct W as (Hp & Hr & Hg & Hb & Hrg & Hrb & Hgb & _).
+  assert (Hlen : Z.of_nat (length (pack_pixel L (r, g, b, x))) = psz L) by (rewrite pack_pixel_length; lia).
+  rewrite !Z.add_0_l.
+  rewrite (rd_app_l _ post (roff L)), (rd_app_l _ post (goff L)), (rd_app_l _ post (boff L)) by lia.
+  unfold pack_pixel.
+  rewrite (rd_zseq_map _ _ (roff L)), (rd_zseq_map _ _ (goff L)), (rd_zseq_map _ _ (boff L)) by lia.
+  rewrite Z.eqb_refl.
+  replace (goff L =? roff L) with false by (symmetry; apply Z.eqb_neq; lia). rewrite Z.eqb_refl.
+  replace (boff L =? roff L) with false by (symmetry; apply Z.eqb_neq; lia).
+  replace (boff L =? goff L) with false by (symmetry; apply Z.eqb_neq; lia). rewrite Z.eqb_refl.
+  reflexivity.
+Qed.
+
+Lemma unpack_pixel_shift L pre l i : 0 <= i -> 0 <= roff L -> 0 <= goff L -> 0 <= boff L ->
+  unpack_pixel L (pre ++ l) (Z.of_nat (length pre) + i) = unpack_pixel L l i.
+Proof.
+  intros. unfold unpack_pixel. rewrite <- !Z.add_assoc, !rd_app_r by lia. reflexivity.
+Qed.
+
+Lemma pack_row_length L row : 0 <= psz L ->
+  Z.of_nat (length (pack_row L row)) = Z.of_nat (length row) * psz L.
+Proof.
+  intro H. unfold pack_row. induction row as [|q t IH]; [simpl; lia|].
+  cbn [flat_map length]. rewrite app_length, pack_pixel_length, Nat2Z.inj_add, IH, Nat2Z.inj_succ by lia.
+  rewrite Z2Nat.id by lia. ring.
+Qed.
+
+Lemma unpack_cols_pack_row L : WF L -> forall row pre post,
+  unpack_cols L (pre ++ pack_row L row ++ post) (Z.of_nat (length pre)) (length row) = map rgb_of_quad row.
+Proof.
+  intros W. pose proof W as (Hp & Hr & Hg & Hb & _).
+  induction row as [|q t IH]; intros pre post; [reflexivity|].
+  change (pack_row L (q :: t)) with (pack_pixel L q ++ pack_row L t).
+  simpl length. cbn [unpack_cols map]. f_equal.
+  - rewrite <- (Z.add_0_r (Z.of_nat (length pre))), unpack_pixel_shift by lia.
+    rewrite <- app_assoc. now apply pack_pixel_unpack.
+  - rewrite <- app_assoc, (app_assoc pre).
+    replace (Z.of_nat (length pre) + psz L) with (Z.of_nat (length (pre ++ pack_pixel L q)))
+      by (rewrite app_length, pack_pixel_length by lia; lia).
+    apply IH.
+Qed.
+
+(* arithmetic progressions of row pointers *)
+Fixpoint ptrs_from (base pitch : Z) (n : nat) : list Z :=
+  match n with O => [] | S k => base :: ptrs_from (base + pitch) pitch k end.
+
+Lemma map_seq_ptrs pitch base : forall n s,
+  map (fun i => base + Z.of_nat i * pitch) (seq s n) = ptrs_from (base + Z.of_nat s * pitch) pitch n.
+Proof.
+  induction n; intro s; simpl; [reflexivity|]. f_equal. rewrite IHn. f_equal. lia.
+Qed.
+
+Lemma rows_td pitch h : rows pitch h false = ptrs_from 0 pitch h.
+Proof.
+  unfold rows. transitivity (map (fun i => 0 + Z.of_nat i * pitch) (seq 0 h)).
+  - apply map_ext. intro. lia.
+  - rewrite map_seq_ptrs. f_equal.
+Qed.
+
+Lemma rev_map_seq {A} (g : nat -> A) : forall h,
+  rev (map g (seq 0 h)) = map (fun i => g (h - 1 - i)%nat) (seq 0 h).
+Proof.
+  induction h; [reflexivity|].
+  transitivity (rev (map g (seq 0 h ++ [h]))). { now rewrite seq_S. }
+  rewrite map_app, rev_app_distr. cbn [map rev app].
+  rewrite IHh. cbn [seq map]. f_equal.
+  - f_equal. lia.
+  - rewrite <- seq_shift, map_map. apply map_ext_in. intros a Ha. apply in_seq in Ha. f_equal. lia.
+Qed.
+
+Lemma rows_bu pitch h : rows pitch h true = rev (rows pitch h false).
+Proof.
+  unfold rows. rewrite (rev_map_seq (fun i => Z.of_nat i * pitch)).
+  apply map_ext_in. intros a Ha. apply in_seq in Ha. f_equal. lia.
+Qed.
+
+Definition chunk (L : layout) (rp : list quad * list Z) : list Z := pack_row L (fst rp) ++ snd rp.
+
+Lemma unpack_concat_td L w pitch : WF L -> forall rowsp, presentation L w pitch rowsp -> forall pre post,
+  unpack L (pre ++ concat (map (chunk L) rowsp) ++ post) (ptrs_from (Z.of_nat (length pre)) pitch (length rowsp)) w
+  = picture rowsp.
+Proof.
+  intros W. pose proof W as (Hp & _).
+  induction rowsp as [|rp t IH]; intros HP pre post; [reflexivity|].
+  inversion HP as [|? ? Hhd HP']; subst. destruct Hhd as [Hw Hpad].
+  cbn [map concat length ptrs_from unpack picture]. unfold unpack in IH. f_equal.
+  - unfold chunk at 1. rewrite <- !app_assoc. rewrite <- Hw. now apply unpack_cols_pack_row.
+  - rewrite <- app_assoc, (app_assoc pre).
+    replace (Z.of_nat (length pre) + pitch) with (Z.of_nat (length (pre ++ chunk L rp))).
+    + apply IH. assumption.
+    + unfold chunk. rewrite !app_length, !Nat2Z.inj_add, pack_row_length by lia. lia.
+Qed.
+
+Lemma presentation_rev L w pitch rowsp : presentation L w pitch rowsp -> presentation L w pitch (rev rowsp).
+Proof. apply Forall_rev. Qed.
+
+Lemma picture_rev rowsp : picture (rev rowsp) = rev (picture rowsp).
+Proof. unfold picture. now rewrite map_rev. Qed.
+
+Theorem unpack_mkbuf L w pitch rowsp bu : WF L -> presentation L w pitch rowsp ->
+  unpack L (mkbuf L rowsp bu) (rows pitch (length rowsp) bu) w = picture rowsp.
+Proof.
+  intros W HP. unfold mkbuf.
+  change (fun rp : list quad * list Z => pack_row L (fst rp) ++ snd rp) with (chunk L).
+  destruct bu.
+  - rewrite rows_bu, rows_td.
+    pose proof (unpack_concat_td L w pitch W (rev rowsp) (presentation_rev _ _ _ _ HP) [] []) as H.
+    cbn [app length Z.of_nat] in H. rewrite app_nil_r, rev_length in H.
+    assert (E : forall buf l, unpack L buf (rev l) w = rev (unpack L buf l w))
+      by (intros; unfold unpack; apply map_rev).
+    rewrite E, <- map_rev, H, picture_rev. apply rev_involutive.
+  - rewrite rows_td.
+    pose proof (unpack_concat_td L w pitch W rowsp HP [] []) as H.
+    cbn [app length Z.of_nat] in H. rewrite app_nil_r in H. exact H.
+Qed.
+
+(* ------------------------------------------------------------------ C. the decompressor kernels *)
+Lemma length_put_pixel a L buf op t : length (put_pixel a L buf op t) = length buf.
+Proof. unfold put_pixel. destruct (0 <=? aoff L); now rewrite !length_upd. Qed.
+
+Lemma put_pixel_frame a L buf op t j : WF L -> 0 <= j -> (j < op \/ op + psz L <= j) ->
+  rd (put_pixel a L buf op t) j = rd buf j.
+Proof.
+  intros (Hp & Hr & Hg & Hb & _ & _ & _ & Ha) Hj Hout. unfold put_pixel.
+  destruct (0 <=? aoff L) eqn:E.
+  - apply Z.leb_le in E. rewrite !rd_upd_other by lia. reflexivity.
+  - rewrite !rd_upd_other by lia. reflexivity.
+Qed.
+
+Lemma put_pixel_read a L buf op t : WF L -> 0 <= op -> op + psz L <= Z.of_nat (length buf) ->
+  unpack_pixel L (put_pixel a L buf op t) op = t.
+Proof.
+  intros (Hp & Hr & Hg & Hb & Hrg & Hrb & Hgb & Ha) Hop Hlen. destruct t as [[r g] b].
+  unfold put_pixel, unpack_pixel, c0, c1, c2. cbn [fst snd].
+  destruct (0 <=? aoff L) eqn:E.
+  - apply Z.leb_le in E.
+    f_equal; [f_equal|].
+    + rewrite !rd_upd_other by lia. apply rd_upd_same. lia.
+    + rewrite !rd_upd_other by lia. apply rd_upd_same. rewrite !length_upd. lia.
+    + rewrite !rd_upd_other by lia. apply rd_upd_same. rewrite !length_upd. lia.
+  - f_equal; [f_equal|].
+    + rewrite !rd_upd_other by lia. apply rd_upd_same. lia.
+    + rewrite !rd_upd_other by lia. apply rd_upd_same. rewrite !length_upd. lia.
+    + apply rd_upd_same. rewrite !length_upd. lia.
+Qed.
+
+Lemma put_pixel_alpha a L buf op t : WF L -> 0 <= op -> op + psz L <= Z.of_nat (length buf) ->
+  0 <= aoff L -> rd (put_pixel a L buf op t) (op + aoff L) = a.
+Proof.
+  intros (Hp & Hr & Hg & Hb & _ & _ & _ & Ha) Hop Hlen Hao. unfold put_pixel.
+  destruct (0 <=? aoff L) eqn:E; [|apply Z.leb_gt in E; lia].
+  apply rd_upd_same. rewrite !length_upd. lia.
+Qed.
+
+Lemma unpack_cols_ext L b1 b2 : 0 <= roff L < psz L -> 0 <= goff L < psz L -> 0 <= boff L < psz L ->
+  forall n ip, (forall j, ip <= j < ip + Z.of_nat n * psz L -> rd b1 j = rd b2 j) ->
+  unpack_cols L b1 ip n = unpack_cols L b2 ip n.
+Proof.
+  intros Hr Hg Hb. induction n; intros ip H; [reflexivity|].
+  cbn [unpack_cols]. f_equal.
+  - unfold unpack_pixel. rewrite !H by nia. reflexivity.
+  - apply IHn. intros j Hj. apply H. nia.
+Qed.
+
+Lemma alpha_cols_ext L b1 b2 : 0 <= aoff L < psz L ->
+  forall n ip, (forall j, ip <= j < ip + Z.of_nat n * psz L -> rd b1 j = rd b2 j) ->
+  alpha_cols L b1 ip n = alpha_cols L b2 ip n.
+Proof.
+  intros Ha. induction n; intros ip H; [reflexivity|].
+  cbn [alpha_cols]. f_equal.
+  - apply H. nia.
+  - apply IHn. intros j Hj. apply H. nia.
+Qed.
+
+Lemma put_cols_spec a L : WF L -> forall px buf op,
+  0 <= op -> op + Z.of_nat (length px) * psz L <= Z.of_nat (length buf) ->
+  let out := put_cols a L px buf op in
+  length out = length buf /\
+  (forall j, 0 <= j -> (j < op \/ op + Z.of_nat (length px) * psz L <= j) -> rd out j = rd buf j) /\
+  unpack_cols L out op (length px) = px /\
+  (0 <= aoff L -> alpha_cols L out op (length px) = repeat a (length px)).
+Proof.
+  intros W. pose proof W as (Hp & Hr & Hg & Hb & _ & _ & _ & Ha).
+  induction px as [|t r IH]; intros buf op Hop Hlen.
+  - cbn. repeat split; auto.
+  - cbn [put_cols length] in *. rewrite Nat2Z.inj_succ in Hlen.
+    set (buf1 := put_pixel a L buf op t).
+    assert (Hl1 : length buf1 = length buf) by apply length_put_pixel.
+    destruct (IH buf1 (op + psz L)) as (I1 & I2 & I3 & I4); [lia | rewrite Hl1; nia |].
+    cbv zeta. repeat split.
+    + now rewrite I1.
+    + intros j Hj Hout. rewrite I2 by nia. apply put_pixel_frame; auto. nia.
+    + cbn [unpack_cols]. f_equal; [|exact I3].
+      transitivity (unpack_pixel L buf1 op).
+      * unfold unpack_pixel. rewrite !I2 by lia. reflexivity.
+      * apply put_pixel_read; auto. nia.
+    + intro Hao. cbn [alpha_cols repeat]. f_equal; [|auto].
+      rewrite I2 by lia. apply put_pixel_alpha; auto. nia.
+Qed.
+
+(* generic row loop: a row writer with a footprint of d samples that can be read back *)
+Section WriteRows.
+  Context {R B : Type}.
+  Variable wr : R -> list Z -> Z -> list Z.
+  Variable rdrow : list Z -> Z -> B.
+  Variable d : Z.
+  Variable ok : R -> B -> Prop.
+  Hypothesis wr_spec : forall row buf op, 0 <= op -> op + d <= Z.of_nat (length buf) ->
+    length (wr row buf op) = length buf /\
+    (forall j, 0 <= j -> (j < op \/ op + d <= j) -> rd (wr row buf op) j = rd buf j) /\
+    ok row (rdrow (wr row buf op) op).
+  Hypothesis rd_ext : forall b1 b2 op, 0 <= op -> (forall j, op <= j < op + d -> rd b1 j = rd b2 j) ->
+    rdrow b1 op = rdrow b2 op.
+
+  Lemma write_rows_spec : forall img buf ptrs,
+    length img = length ptrs -> in_bounds d (length buf) ptrs -> separated d ptrs ->
+    let out := write_rows wr img buf ptrs in
+    length out = length buf /\
+    (forall j, 0 <= j -> outside_rows d ptrs j -> rd out j = rd buf j) /\
+    Forall2 (fun row op => ok row (rdrow out op)) img ptrs.
+  Proof.
+    induction img as [|row ri IH]; intros buf [|op rp] Hlen Hin Hsep; try discriminate.
+    - cbn. repeat split; auto.
+    - cbn [write_rows]. inversion Hin as [|? ? [Hop Hopd] Hin']; subst.
+      destruct Hsep as [Hhd Hsep].
+      destruct (wr_spec row buf op Hop Hopd) as (W1 & W2 & W3).
+      destruct (IH (wr row buf op) rp) as (I1 & I2 & I3).
+      + simpl in Hlen. lia.
+      + unfold in_bounds in *. now rewrite W1.
+      + assumption.
+      + cbv zeta. repeat split.
+        * now rewrite I1.
+        * intros j Hj Hout. rewrite I2.
+          -- apply W2; auto. apply Hout. now left.
+          -- assumption.
+          -- intros q Hq. apply Hout. now right.
+        * constructor; [|exact I3].
+          erewrite rd_ext; [exact W3 | assumption |].
+          intros j Hj. apply I2; [lia|].
+          intros q Hq. rewrite Forall_forall in Hhd. specialize (Hhd q Hq). lia.
+  Qed.
+End WriteRows.
+
+Lemma Forall2_eq_map {A B} (f : A -> B) l1 l2 : Forall2 (fun a b => f b = a) l1 l2 -> map f l2 = l1.
+Proof. induction 1; simpl; congruence. Qed.
+
+Theorem put_rows_spec a L w : WF L -> forall img buf ptrs,
+  length img = length ptrs -> Forall (fun row => length row = w) img ->
+  in_bounds (Z.of_nat w * psz L) (length buf) ptrs -> separated (Z.of_nat w * psz L) ptrs ->
+  let out := put_rows a L img buf ptrs in
+  length out = length buf /\
+  (forall j, 0 <= j -> outside_rows (Z.of_nat w * psz L) ptrs j -> rd out j = rd buf j) /\
+  unpack L out ptrs w = img /\
+  (0 <= aoff L -> unpack_alpha L out ptrs w = map (fun _ => repeat a w) img).
+Proof.
+  intros W img buf ptrs Hlen Hw Hin Hsep. pose proof W as (Hp & Hr & Hg & Hb & _ & _ & _ & Ha).
+  (* rows of the wrong width are excluded by carrying the width in the row type *)
+  set (okrow := fun (row : list px3) (got : list px3 * list Z) =>
+                  length row = w -> fst got = row /\ (0 <= aoff L -> snd got = repeat a w)).
+  pose proof (write_rows_spec (fun row buf op => if Nat.eqb (length row) w then put_cols a L row buf op else buf)
+                (fun buf op => (unpack_cols L buf op w, if 0 <=? aoff L then alpha_cols L buf op w else []))
+                (Z.of_nat w * psz L) okrow) as G.
+  assert (Hd : 0 <= Z.of_nat w * psz L) by nia.
+  assert (E : forall img' buf' ptrs', Forall (fun row => length row = w) img' ->
+            write_rows (fun row buf op => if Nat.eqb (length row) w then put_cols a L row buf op else buf) img' buf' ptrs'
+            = put_rows a L img' buf' ptrs').
+  { unfold put_rows. induction img' as [|r ri IH]; intros buf' [|o rp] HF; try reflexivity.
+    inversion HF; subst. cbn [write_rows]. rewrite Nat.eqb_refl. now apply IH. }
+  assert (HA : forall row b op, 0 <= op -> op + Z.of_nat w * psz L <= Z.of_nat (length b) ->
+     length (if Nat.eqb (length row) w then put_cols a L row b op else b) = length b /\
+     (forall j, 0 <= j -> (j < op \/ op + Z.of_nat w * psz L <= j) ->
+        rd (if Nat.eqb (length row) w then put_cols a L row b op else b) j = rd b j) /\
+     okrow row (unpack_cols L (if Nat.eqb (length row) w then put_cols a L row b op else b) op w,
+                if 0 <=? aoff L then alpha_cols L (if Nat.eqb (length row) w then put_cols a L row b op else b) op w else [])).
+  { intros row b op Hop Hopd. destruct (Nat.eqb (length row) w) eqn:Ew.
+    + apply Nat.eqb_eq in Ew. subst w.
+      destruct (put_cols_spec a L W row b op Hop Hopd) as (P1 & P2 & P3 & P4).
+      repeat split; auto. cbn [snd]. intro Hao.
+      destruct (0 <=? aoff L) eqn:Ea; [auto | apply Z.leb_gt in Ea; lia].
+    + repeat split; auto; intro Hc; apply Nat.eqb_neq in Ew; contradiction. }
+  assert (HB : forall b1 b2 op, 0 <= op -> (forall j, op <= j < op + Z.of_nat w * psz L -> rd b1 j = rd b2 j) ->
+     (unpack_cols L b1 op w, if 0 <=? aoff L then alpha_cols L b1 op w else []) =
+     (unpack_cols L b2 op w, if 0 <=? aoff L then alpha_cols L b2 op w else [])).
+  { intros b1 b2 op Hop H. f_equal.
+    + apply unpack_cols_ext; auto.
+    + destruct (0 <=? aoff L) eqn:Ea; [|reflexivity]. apply Z.leb_le in Ea.
+      apply alpha_cols_ext; [lia | assumption]. }
+  destruct (G HA HB img buf ptrs Hlen Hin Hsep) as (G1 & G2 & G3).
+  rewrite E in * by assumption. cbv zeta. repeat split; auto.
+  - unfold unpack. clear - G3 Hw. induction G3; [reflexivity|]. inversion Hw; subst.
+    cbn [map]. f_equal; [|auto]. apply H; assumption.
+  - intro Hao. unfold unpack_alpha. clear - G3 Hw Hao. induction G3; [reflexivity|]. inversion Hw; subst.
+      cbn [map]. f_equal; [|auto]. destruct H as [_ H]; [assumption|]. specialize (H Hao). cbn [snd] in H.
+      destruct (0 <=? aoff L) eqn:Ea; [assumption | apply Z.leb_gt in Ea; lia].
+Qed.
